@@ -449,6 +449,13 @@ class IMAPClientCommand:
         #
         self.ready = asyncio.Event()
 
+        # If the mbox management task fails while preparing this command (for
+        # example the message set is out of range for the mailbox) it stores
+        # the exception here before setting `ready` so that the task executing
+        # this command can raise it (and its client gets a NO or BAD.)
+        #
+        self.mgmt_exception: Exception | None = None
+
         # when the task executing this IMAPClientCommand finished it sets
         # `completed` to True so that the mbox management task knows that this
         # command has finished.
@@ -472,6 +479,8 @@ class IMAPClientCommand:
                 raise NoSuchMailbox(
                     f"Mailbox '{mbox.name}' has been deleted or shutdown"
                 )
+            if self.mgmt_exception is not None:
+                raise self.mgmt_exception
             yield
         finally:
             self.completed = True
